@@ -708,15 +708,28 @@ class JacobianAssembly:
         couplings_and_res = sorted_couplings_minimal.copy()
         couplings_and_states = sorted_couplings_minimal.copy()
         # linearize all the disciplines
-        if residual_variables:
-            couplings_and_res += residual_variables.keys()
-            couplings_and_states += states
-
         for disc in self.coupling_structure.disciplines:
             if disc.cache is not None and exec_cache_tol is not None:
                 disc.cache.tolerance = exec_cache_tol
 
             disc.linearize(in_data, execute=execute)
+
+        if residual_variables:
+            # Keep only the residuals of the disciplines that have been linearized,
+            # i.e. those lying between the variables and the functions;
+            # the other ones would yield a singular system.
+            linearized_names = {
+                name
+                for disc in self.coupling_structure.disciplines
+                for name in disc.jac
+            }
+            residual_variables = {
+                residual: state
+                for residual, state in residual_variables.items()
+                if residual in linearized_names
+            }
+            couplings_and_res += residual_variables.keys()
+            couplings_and_states += residual_variables.values()
 
         # compute the sizes from the Jacobians
         self.compute_sizes(
